@@ -48,6 +48,7 @@ func (n *node[T]) buildIndexes() {
 	if n.indexes == nil {
 		n.indexes = make(map[byte]int, indexesSize)
 	}
+	clear(n.indexes) // 删除子节点之后，旧的索引不能保留。
 
 	for index, node := range n.children {
 		if node.segment.Type == syntax.String {
@@ -160,6 +161,7 @@ func (n *node[T]) find(pattern string) *node[T] {
 func (n *node[T]) clean(prefix string) {
 	if len(prefix) == 0 {
 		n.children = n.children[:0]
+		n.buildIndexes()
 		return
 	}
 
